@@ -135,7 +135,7 @@ fn d_step<S: Src>(s: &mut S, tag: u8, tail: Tail, sh: Shape) {
     vcover!(!from_self && !for_me, "datagram for somebody else");
     vcover!(!from_self && for_me, "datagram accepted");
     if from_self {
-        vassert!(matches!(r, Err(Error::DataFromOurselves)), "c17: data claiming our own identity or address is rejected");
+        vassert!(matches!(r, Err(Error::DataFromOurselves)), "c09+c17+c19: data claiming our own identity or address is rejected (an identity of our own address never becomes a member)");
         vassert!(rt.is_silent() && post.identical(&pre), "c17: rejected datagram leaves no trace");
         return;
     }
@@ -497,7 +497,32 @@ dh!(d_ping_upd, 0, Tail::One, sh(1));
 dh!(d_ping_upd_k2, 0, Tail::One, sh(2));
 dh!(d_gossip_upd, 8, Tail::One, sh(1));
 dh!(d_gossip_upd_k2, 8, Tail::One, sh(2));
+// smallest instance of "datagram carrying one fully symbolic update": no prior record,
+// no probe in flight, fan-out 1, non-renewable identity (the renewable variants need > 24 GB)
+dh!(d_gossip_upd_never, 8, Tail::One, {
+    let mut x = sh(0);
+    x.probe = false;
+    x.fanout = Some(1);
+    x.renew = Some(RenewMode::Never);
+    x
+});
+dh!(d_ping_upd_never, 0, Tail::One, {
+    let mut x = sh(0);
+    x.probe = false;
+    x.fanout = Some(1);
+    x.renew = Some(RenewMode::Never);
+    x
+});
 dh!(d_feed_upd, 7, Tail::One, sh(1));
+// a Feed that fills the packet completely (max_packet_size = 17 = header + count + one member)
+dh!(d_feed_upd_tight, 7, Tail::One, {
+    let mut x = sh(0);
+    x.pkt = 17;
+    x.probe = false;
+    x.fanout = Some(1);
+    x.renew = Some(RenewMode::Never);
+    x
+});
 dh!(d_ack_upd, 1, Tail::One, sh(1));
 // custom broadcast items
 dh!(d_gossip_custom, 8, Tail::Custom, sh(1));
